@@ -368,6 +368,16 @@ func (core *JApiCore) processResponseAllOf() *jerr.JApiError {
 }
 
 func (core *JApiCore) processSchemaContentJSightAllOf(sc *catalog.SchemaContentJSight, uut *catalog.StringSet) error {
+	if sc.TokenType == jschema.TokenTypeArray {
+		// The items of an array can be objects with the allOf rule as well.
+		for _, v := range sc.Children {
+			if err := core.processSchemaContentJSightAllOf(v, uut); err != nil {
+				return err
+			}
+		}
+		return nil
+	}
+
 	if sc.TokenType != jschema.TokenTypeObject {
 		return nil
 	}
